@@ -60,6 +60,7 @@ def _env():
     env["PYTHONHASHSEED"] = "0"
     env["JOSERFC_VERIF"] = "1"
     env["VERIF_TIER"] = os.environ.get("VERIF_TIER_EFFECTIVE", env.get("VERIF_TIER", "quick"))
+    env["VERIF_PROPERTY"] = os.environ.get("VERIF_PROPERTY", "")
     return env
 
 
